@@ -82,8 +82,46 @@ def showEndRv (r : SSVerif.DecRet.Ret) : String := s!"rv={r.rv} cnt={r.cnt} "
 
 def withRv (rv : String) (r : D × String) : D × String := (r.1, rv ++ r.2)
 
+/-! ### `ring`: the model function `featLive` at a chosen position of the live feature ring (tie of `Props/C07Ring.lean`
+    and of the streaming theorems' index arithmetic against `harness/h_c07r.c`, which calls the real
+    `feat_s2mfc2feat_live` on the same state) -/
+
+/-- the marker `harness/h_c07r.c` stores for frame id `id` -/
+def ringMarker (id : Nat) : Int := ((id * id * 7 + id * 13 + 5) % 100003 : Nat)
+
+/-- ring slot `i` holds id `1000 + i`, input frame `k` (in `mfc_buf[k]`) id `k`; `pending` frames between the read and
+    the write position -/
+def ringState (cp nb : Nat) : St :=
+  { St.init 0 with
+      cepbuf := (List.range SSVerif.Generated.livebuf).map fun i => some ⟨1000 + i, 1, false⟩,
+      curpos := cp, bufpos := (cp + nb) % SSVerif.Generated.livebuf,
+      mfcBuf := (List.range 300).map fun k => some ⟨k, 0, false⟩, nMfcAlloc := 300,
+      featBuf := List.replicate 308 none, nFeatAlloc := 308, cmnBatch := false }
+
+/-- coefficient 0, delta 0 and delta-delta 0 of the `1s_c_d_dd` feature vector computed from a window of markers
+    (feat.c `feat_1s_c_d_dd_cep2feat`: c = w[0], d = w[2] - w[-2], dd = (w[3] - w[-1]) - (w[1] - w[-3])) -/
+def showRingFeat (win : Nat) : Option Feat → String
+  | none => "?"
+  | some f =>
+    let g : Nat → Int := fun j => match f.getD j none with | some c => ringMarker c.id | none => -1000000
+    s!"{g win}:{g (win + 2) - g (win - 2)}:{(g (win + 3) - g (win - 1)) - (g (win + 1) - g (win - 3))}"
+
+def ringLine (win cp nb ncep : Nat) (b e : Bool) : String :=
+  let r := featLive win noSkip (ringState cp nb) 0 ncep b e 0
+  let changed := (List.range SSVerif.Generated.livebuf).filterMap fun i =>
+    match r.st.cepbuf.getD i none with
+    | some c => if c.id = 1000 + i then none else some s!"{i}:{c.id}"
+    | none => some s!"{i}:_"
+  let feats := (List.range r.nfeat).map fun i => showRingFeat win (r.st.featBuf.getD i none)
+  s!"ring rv={r.nfeat} used={r.used} bp={r.st.bufpos} cp={r.st.curpos} w={if changed.isEmpty then "-" else ",".intercalate changed} f={if feats.isEmpty then "-" else ",".intercalate feats}" ++
+  (match r.st.fault with | none => "" | some m => " FAULT=" ++ m.replace " " "_")
+
 def step (d : D) (ws : List String) : D × String :=
   match ws with
+  | ["ring", cp, nb, ncep, b, e] =>
+    match cp.toNat?, nb.toNat?, ncep.toNat? with
+    | some cp, some nb, some ncep => (d, ringLine d.win cp nb ncep (b != "0") (e != "0"))
+    | _, _, _ => (d, "bad-op")
   | ["init", w, c, f] =>
     match w.toNat?, c.toNat? with
     | some w, some c =>
